@@ -120,6 +120,7 @@ func c19Harness(events *[]porcupine.Event) func() {
 			do(2, regOp{"dial", "x", ""})
 			do(2, regOp{"dial", "x", ""})
 			do(2, regOp{"dial", "z", ""})
+			do(2, regOp{"dial", "x+z", ""}) // a scheme of its own, never registered, whatever happens to "x"
 			do(2, regOp{"dial", "y", ""})
 			done.Send(1)
 		})
